@@ -108,7 +108,7 @@ def programs(draw, tier):
                         "same_chains_twice": draw(st.booleans())})
         elif k == "fit":
             ops.append({"op": k, "N": draw(st.integers(2, 6)), "pbs": draw(st.integers(1, 4)), "nbs": draw(st.one_of(st.none(), st.integers(1, 4))),
-                        "k": draw(st.integers(0, 2)), "epochs": draw(st.integers(1, 2))})
+                        "k": draw(st.integers(0, 2)), "epochs": draw(st.integers(1, 2)), "busy": draw(st.integers(0, 3)) == 0})
         else:
             ops.append({"op": k})
     seeds = st.one_of(st.sampled_from([0, 1, 2 ** 32 - 1]), st.integers(0, 2 ** 32 - 1), st.integers(0, 2 ** 32 - 1), st.integers(0, 2 ** 32 - 1))   # the boundary seeds are ordinary seeds
@@ -198,6 +198,10 @@ def run_program(ops, seed, tmp, form="explicit", shared_cb=None):
             kw = {"input_bases": bases} if len(state.networks) > 1 else {}
             if shared_cb is not None:
                 kw["callbacks"] = [shared_cb]          # one evaluator object used by every fit of BOTH seeded runs (history not cleared in between)
+            if op.get("busy"):
+                # re-entrant use: a callback that evaluates, samples, takes statistics and trains ANOTHER state from inside the hooks of this fit;
+                # the whole is still a function of the seed alone
+                kw["callbacks"] = list(kw.get("callbacks", [])) + [gen.busy_callback()]
             state.fit(data, epochs=op["epochs"], pos_batch_size=op["pbs"], neg_batch_size=op["nbs"], k=op["k"], lr=0.05, **kw)
             if not bool(torch.isfinite(params_flat(state)).all()):
                 raise Diverged()
